@@ -32,6 +32,7 @@ type sharedList struct {
 // pipeline stage), so a chain that wrote into what it was handed would be seen by the next.
 func (r *scriptRun) buildShared(tasks []behSpec) *sharedList {
 	l := r.log
+	panKind := r.taskPanic
 	cur := func() int64 { return atomic.LoadInt64(&r.curChain) }
 	rec := func(e hx.T) {
 		ch := r.chains[cur()]
@@ -70,7 +71,7 @@ func (r *scriptRun) buildShared(tasks []behSpec) *sharedList {
 				r.setPending(fireKey{c, i, int64(k)}, func() { cb(x.err, res...) })
 			}
 			if b.pan {
-				panic("c15: scripted task panic")
+				doPanic(panKind)
 			}
 		}
 	}
